@@ -705,9 +705,10 @@ def run_scenario(ctx, sc, max_points=None, pick=None):
     world, obs_old, obs_new, events = prep
     pts = crash.points(events)
     if max_points is not None and len(pts) > max_points:
-        # deterministic slice of a finite space: keep all non-'open' events, thin out the opens
-        keep = [p for p in pts if events[p[0] - 1]["ev"] != "open"]
-        rest = [p for p in pts if events[p[0] - 1]["ev"] == "open"]
+        # deterministic slice of a finite space: keep every rename/mkdir/rmdir/utime event, thin out the bulk ones
+        bulk = ("open", "os.remove", "os.chmod", "os.chown")  # many alike (metadata files written / entry files unlinked)
+        keep = [p for p in pts if events[p[0] - 1]["ev"] not in bulk]
+        rest = [p for p in pts if events[p[0] - 1]["ev"] in bulk]
         pick.shuffle(rest)
         pts = sorted(keep + rest[: max(0, max_points - len(keep))])
     ctx.count("scenarios")
@@ -722,7 +723,7 @@ def run_scenario(ctx, sc, max_points=None, pick=None):
 COMBOS = [("vdb", "install"), ("vdb", "replace"), ("vdb", "uninstall"), ("binpkg", "install"), ("binpkg", "replace"),
           ("binpkg", "uninstall")]
 N_SCEN = {
-    "quick": {"vdb": (2, 2), "binpkg": (1, 6)},  # (tasks per combo, scenarios per task)
+    "quick": {"vdb": (2, 1), "binpkg": (1, 2)},  # (tasks per combo, scenarios per task); ~1 s CPU per crash point
     "thorough": {"vdb": (5, 10), "binpkg": (3, 20)},
 }
 
@@ -744,8 +745,14 @@ WARM = {"slot": "0", "eapi": "8", "iuse": ["a"], "use_extra": [], "use_mask": 1,
         "rdepend": "a? ( dev-libs/y )", "files": [0, 3, 5], "env_lines": 1}
 
 
+_WARM = set()
+
+
 def warm_up(ctx, repo):
     """run every operation once in this process so that forked children do not pay for (lazy) imports"""
+    if repo in _WARM:
+        return
+    _WARM.add(repo)
     for op in ("install", "replace", "uninstall"):
         sc = {"repo": repo, "op": op, "old": WARM, "new": WARM, "ver": "1", "ver2": "1.2", "sibling": False, "other_slot": False,
               "needed": repo == "vdb", "relation": "same", "driver": "staged"}
@@ -767,7 +774,7 @@ def run_task(ctx, task, repo, op, n, part):
     pick = random.Random(ctx.seed * 7919 + part * 101 + COMBOS.index((repo, op)))
     limit = None
     if ctx.tier == "quick" and repo == "vdb":
-        limit = 60
+        limit = 30
     relation = ("same", "other")[part % 2] if (repo, op) == ("vdb", "replace") else None
     core.hyp_run(ctx, scenario_strategy(repo, op, relation), lambda sc: run_scenario(ctx, sc, limit, pick), n, chunk=n,
                  seed_salt=part * 17 + COMBOS.index((repo, op)))
